@@ -610,6 +610,20 @@ func runC16(c *CaseCtx) *CaseResult {
 			if err != nil {
 				return fail(err)
 			}
+			if k%3 == 1 {
+				// a committed base plus further churn, so that the measured commit also issues deletions
+				if err := w.Commit(false, 1); err != nil {
+					return fail(err)
+				}
+				for i := 0; i < 120; i++ {
+					if err := w.Step(w.roots[1+i%2], PhaseChurn, &HistCfg{DescendPct: 20, PopOnChild: true}); err != nil {
+						return fail(err)
+					}
+				}
+				for i := 0; i < 25; i++ {
+					_, _ = w.roots[0].Arr.Remove(uint64(w.rng.Intn(int(w.roots[0].Arr.Count()))))
+				}
+			}
 			jh := jitterHook(r, &mu, 2)
 			switch k % 3 {
 			case 0: // one failing storable: encode error while other workers are mid-job
@@ -636,13 +650,20 @@ func runC16(c *CaseCtx) *CaseResult {
 				}
 				res.Obs["encode-error-scenarios"]++
 			case 1: // ledger failure on the k-th store while workers may still be encoding
+				// the sequential reference is computed from the write set BEFORE the failing commit
+				want, err := sequentialCommit(w.ps, w.led.Snapshot())
+				if err != nil {
+					return fail(err)
+				}
 				blobEncodeHook.Store(jh)
 				pos := 1 + r.Intn(6)
 				busyAtError := int64(0)
 				w.led.ResetFaultCounters()
-				w.led.FailWrite = func(n int, _ byte, _ atree.SlabID) (bool, bool) {
+				failedDelete := false
+				w.led.FailWrite = func(n int, kind byte, _ atree.SlabID) (bool, bool) {
 					if n == pos {
 						busyAtError = atomic.LoadInt64(&c16Busy)
+						failedDelete = kind == 'D'
 						return true, false
 					}
 					return false, false
@@ -662,11 +683,10 @@ func runC16(c *CaseCtx) *CaseResult {
 				if busyAtError > 0 {
 					res.Obs["ledger-error-while-workers-busy"]++
 				}
-				// nothing lost: retry converges to the sequential reference
-				want, err := sequentialCommit(w.ps, w.led.Snapshot())
-				if err != nil {
-					return fail(err)
+				if failedDelete {
+					res.Obs["ledger-delete-failures"]++
 				}
+				// nothing lost: retry converges to the sequential reference
 				if err := w.Commit(relaxed, workers); err != nil {
 					return fail(err)
 				}
